@@ -131,14 +131,32 @@ Proof. vm_compute. auto. Qed.
 
 (* ---- csv2: the record buffer ---------------------------------------------------------------------------
    Full statement (csv2_column_fidelity): for every declaration list and every input, each delivered
-   record node holds, per declared column, field `index` of the line selected by line_index /
-   line_pattern among the record's rows ("" beyond the row), and rows are consumed in input order.
-   Proved: the part that is index arithmetic - over every interleaving of readLine / popFront /
-   matchLine, [rep s rows] (the buffer denotes exactly the unconsumed rows) is preserved, readLine
-   appends the record encoding/csv returned, popFront n drops the first n rows, a column value is
-   field `index` of its row or "", matchLine sees the row joined by the delimiter; no slice index is
-   out of range.  Missing: the composition through linesToNode / ReadAndMatch / the hierarchy
-   reader (C05's subject), which the correspondence runs validate. *)
+   record node holds, per declared column, field `index` of the row selected by line_index /
+   line_pattern among the record's rows ("" beyond the row; no row selected: absent), and rows are
+   consumed in input order.
+   Proved: [rep s rows] (the reader-owned records slice + (recordStart, recordNum) denote exactly
+   the rows read and not yet consumed) is preserved by every buffer operation - readLine appends the
+   record encoding/csv returned, popFront n drops the first n rows and shifts the rest, matchLine sees
+   the row joined by the delimiter (the raw cache is invisible), a column value is field `index`
+   of its row or "" - no slice index is out of range; linesToNode + popFront build node_spec of the
+   first n buffered rows; and a rows based ReadAndMatch delivers node_spec of the next n rows in
+   reading order and consumes exactly those (csv2_column_fidelity_rows_partial).
+   Missing: the same composition for the header/footer loop, and the hierarchy reader above
+   ReadAndMatch (C05's subject); both are validated by the correspondence runs. *)
+Theorem csv2_column_fidelity_rows_partial : forall re_match comma delim d n s rows t s',
+  rep delim s rows -> q_shape d = Rows n ->
+  read_and_match2 re_match comma delim d true s = (Ok (true, Some t), s') ->
+  exists more, t = node_spec re_match delim d (firstn n (rows ++ more))
+               /\ rep delim s' (skipn n (rows ++ more)).
+Proof. exact csv2_rows_record_proof. Qed.
+
+Theorem csv2_lines_to_node_partial : forall re_match delim d n s rows,
+  rep delim s rows -> n <= length rows ->
+  exists s', take_record2 re_match delim d n true s
+             = (Ok (true, Some (node_spec re_match delim d (firstn n rows))), s')
+             /\ rep delim s' (skipn n rows) /\ s_c s' = s_c s.
+Proof. exact take_record2_rep. Qed.
+
 Theorem csv2_readline_appends_partial : forall delim comma s rows, rep delim s rows ->
   match csv_next comma (s_c s) with
   | (CRec rec, c') => exists s', c2_readline comma s = (Ok true, s') /\ rep delim s' (rows ++ [rec]) /\ s_c s' = c'
@@ -164,11 +182,16 @@ Theorem csv2_match_line_partial : forall re_match delim p s rows i row,
 Proof. exact match_line_rep. Qed.
 
 Example csv2_nonvacuous :
-  (* two buffered rows [a,b] [c]; pop one; the remaining line reads c at index 1 and "" at 2 *)
+  (* two buffered rows [a,b] [c]; pop one; the remaining line is re-based to offset 0; a two-row
+     record with columns (index 2, line 1) and (index 2, line 2) reads "b" and "" *)
   let s := mkS2 (mkC [] 2) [mkL2 0 2 []; mkL2 2 1 []] [hx "61"; hx "62"; hx "63"] in
+  let d := mkRec2 (hx "72") (Rows 2) true 0 None
+                  [mkCol2 (hx "78") 2 (Some 1) None; mkCol2 (hx "79") 2 (Some 2) None] in
   rep (hx "2c") s [[hx "61"; hx "62"]; [hx "63"]]
   /\ fst (pop_front2 1 s) = Ok tt
-  /\ s_lines (snd (pop_front2 1 s)) = [mkL2 0 1 []].
+  /\ s_lines (snd (pop_front2 1 s)) = [mkL2 0 1 []]
+  /\ fst (read_and_match2 pat_match 44%N (hx "2c") d true s)
+     = Ok (true, Some (T ElementNode (hx "72") FNone [text_elem (hx "78") (hx "62"); text_elem (hx "79") []])).
 Proof. vm_compute. auto 10. Qed.
 
 (* ---- fixedlength2: no stale buffer reference (upstream issue 213) ------------------------------------ *)
